@@ -1347,6 +1347,70 @@ fn witness_from_config(ctx: &mut Ctx, rng: &mut Rng) {
     }
 }
 
+/// Two replica ids whose first virtual node has the SAME ring position: a real collision of
+/// `HashRing::hash_virtual_node` (SipHash-1-3, zero key, over `node as u64 LE ++ 0u32 LE`), found by
+/// a distinguished-point search; kernel-checked on the model's transcription of the hasher
+/// (`RedisVerif.C19.sip13_vnode_collision`).
+pub const COLL_A: u64 = 8995953703207198936;
+pub const COLL_B: u64 = 7408622316112464113;
+
+/// corpus case, runs first on every run: the same membership joined in two orders, with a real
+/// position collision between two virtual nodes.  `add_node` sorts by position only (stable), so
+/// the tie is broken by JOIN ORDER: two nodes that learnt the members in different orders hold
+/// different rings and disagree about the owners of the keys in front of the collided position.
+fn witness_position_collision(ctx: &mut Ctx) {
+    let sig = "C19:order:position-collision:join-order-decides";
+    // (a) the minimal membership: every key is owned by whoever joined first
+    let keys: Vec<String> = vec!["k".into(), "user:1".into(), "".into()];
+    ctx.op_key_positions(&keys);
+    let ra = ctx.op_new(&[COLL_A, COLL_B], 1, 1);
+    let reps_a = ctx.op_replicas(&ra, &keys, None);
+    let rb = ctx.op_new(&[COLL_B, COLL_A], 1, 1);
+    let reps_b = ctx.op_replicas(&rb, &keys, None);
+    let pa = ra.verif_ring_positions();
+    let pb = rb.verif_ring_positions();
+    if pa.len() != 2 || pa[0].0 != pa[1].0 {
+        ctx.out.violation("C19:harness:collision-witness-does-not-collide",
+            "the two replica ids of the corpus case no longer hash to one position: hash_virtual_node changed (find a new pair)",
+            json!({"a": COLL_A, "b": COLL_B, "ring": pa.iter().map(|x| json!([x.0.to_string(), x.1.to_string(), x.2])).collect::<Vec<_>>()}));
+        return;
+    }
+    ctx.out.count("order:position-collision:witness");
+    if pa != pb || reps_a != reps_b {
+        ctx.out.violation(sig,
+            &format!("HashRing::new(vec![A, B], 1, 1) and HashRing::new(vec![B, A], 1, 1) (A = {}, B = {}, hash_virtual_node(A, 0) = hash_virtual_node(B, 0) = {}) are different rings; get_replicas({:?}) = {:?} on the first and {:?} on the second",
+                COLL_A, COLL_B, pa[0].0, keys[0], reps_a[0], reps_b[0]),
+            json!({"nodes_a": [COLL_A.to_string(), COLL_B.to_string()], "nodes_b": [COLL_B.to_string(), COLL_A.to_string()], "vnodes": 1, "rf": 1,
+                   "position": pa[0].0.to_string(), "key": keys[0], "replicas_a": reps_a[0].iter().map(|x| x.to_string()).collect::<Vec<_>>(),
+                   "replicas_b": reps_b[0].iter().map(|x| x.to_string()).collect::<Vec<_>>()}));
+    }
+    // (b) a five-node cluster with the default settings (150 virtual nodes, rf 3): the keys whose
+    // clockwise walk starts at the collided position get the two nodes in join order
+    let members_a = [1u64, 2, 3, COLL_A, COLL_B];
+    let members_b = [1u64, 2, 3, COLL_B, COLL_A];
+    let da = HashRing::with_defaults(members_a.iter().map(|n| ReplicaId::new(*n)).collect());
+    let db = HashRing::with_defaults(members_b.iter().map(|n| ReplicaId::new(*n)).collect());
+    let hit = (0..400_000u32).map(|i| format!("key:{}", i)).find(|k| da.get_replicas(k) != db.get_replicas(k));
+    match hit {
+        Some(k) => {
+            let ks = vec![k.clone()];
+            ctx.op_key_positions(&ks);
+            let ra = ctx.op_new_defaults(&members_a);
+            let xa = ctx.op_replicas(&ra, &ks, None);
+            let rb = ctx.op_new_defaults(&members_b);
+            let xb = ctx.op_replicas(&rb, &ks, None);
+            ctx.out.count("order:position-collision:default-cluster-key-found");
+            if xa != xb {
+                ctx.out.violation(sig,
+                    &format!("HashRing::with_defaults over the members {{1, 2, 3, A, B}} joined as [1,2,3,A,B] and as [1,2,3,B,A]: get_replicas({:?}) = {:?} vs {:?}", k, xa[0], xb[0]),
+                    json!({"nodes_a": members_a.iter().map(|x| x.to_string()).collect::<Vec<_>>(), "nodes_b": members_b.iter().map(|x| x.to_string()).collect::<Vec<_>>(),
+                           "vnodes": 150, "rf": 3, "key": k}));
+            }
+        }
+        None => ctx.out.count("order:position-collision:default-cluster-no-key-in-400000"),
+    }
+}
+
 /// the coverage audit of C19 against the eleven classes of missed inputs (also DESIGN §4 C19 "coverage audit")
 fn audit() -> serde_json::Value {
     json!([
@@ -1378,6 +1442,7 @@ pub fn run(a: &Args) {
     let mut wr = Rng::new(7);
     ctx.op_sip(&mut wr, 40);
     witness_from_config(&mut ctx, &mut wr);
+    witness_position_collision(&mut ctx);
     gossip_loop_interval_probe(&mut ctx);
     config_shapes(&mut ctx);
     crate::srcscan::report(&mut ctx.out, "C19", "api_coverage(scanned from the source of the dependency)",
